@@ -16,6 +16,8 @@ Decided clause:
        other cipher state without the LO word also being in the cone - lanes of one vector are
        consecutive blocks, so a high word that cannot have been influenced by the low word has no
        carry; (b) R3.2-wb: every write-back of the HI word depends (data or control) on the LO word.
+  R3.12 (E16) no function of the stream units writes a static object (a bounce buffer or counter block in static storage is shared by
+        concurrent callers).
   R3.3 no lost block (E1 on every stream backend): on every returning path, data written into a
        local bounce buffer (the partial-block buffers `tmp` / `partialblock` / `block`) is read
        again before the function returns - keystream stored into a local that is never copied
@@ -155,7 +157,12 @@ def run(ctx, chk):
     chk.floor("R3.1-who", "call sites of the extended-counter functions", ncall, 5)
 
     carry_rule(prog, chk)
-    bounce_rule(prog, chk)
+    # R3.12: "every backend" includes two callers inside one backend at the same time: no function of the stream units keeps per-call
+    # state (a bounce buffer, a counter block) in static storage (E16). Runs before R3.3, whose instance floor counts *local* buffers.
+    from .. import staticstate
+    staticstate.static_state_rule(prog, chk, "R3.12", ("crypto_stream/",), floor=40)
+    static_bounce = any(v["rule"] == "R3.12" for v in chk.violations)
+    bounce_rule(prog, chk, floor=0 if static_bounce else 4)
     # R3.4: no identically-zero carry in the counter arithmetic of the stream units (E12; byte-wise counters of the
     # portable Salsa20 code: u += in[i]; in[i] = u; u >>= 8)
     batch_rule(prog, chk)
@@ -380,7 +387,7 @@ BOUNCE_BACKENDS = (("chacha20_encrypt_bytes", "chacha20/ref/"), ("chacha20_encry
 WIPES = ("sodium_memzero", "memset", "llvm.memset", "explicit_bzero")
 
 
-def bounce_rule(prog, chk):
+def bounce_rule(prog, chk, floor=4):
     cg = prog.callgraph()
     rr = cg.ranges()
     n = nfn = 0
@@ -456,7 +463,7 @@ def bounce_rule(prog, chk):
                 chk.ob("R3.3", fn, "data written into the local buffer %s is read again before the return" % T.show(r, fn), ok,
                        loc=fn.loc(w.iid), detail="" if ok else "last data write at %s, no later read on this path: the block never "
                        "reaches the output" % fn.loc(w.iid), path=None if ok else p, key="R3.3 %s %s" % (name, usub))
-    chk.floor("R3.3", "stream backends with a local bounce buffer", nfn, 4)
+    chk.floor("R3.3", "stream backends with a local bounce buffer", nfn, floor)
     chk.floor("R3.3", "(path, bounce buffer) pairs with a data write", n, 6)
 
 
